@@ -79,6 +79,8 @@ pub proof fn lemma_slice_array_eq_u8<const N: usize>(a: &[u8], b: &[u8; N])
 }
 
 // ---- A4: u32::checked_shr
+// R14: pins the error type of a beta-reduced helper body (the helper's declared return type is Result<T, ParseError>)
+pub fn r14_res<T>(r: Result<T, crate::parse::ParseError>) -> (o: Result<T, crate::parse::ParseError>) ensures o == r { r }
 // A18: Range::is_empty is `!(start < end)`
 pub uninterp spec fn range_is_empty_spec<Idx>(r: &core::ops::Range<Idx>) -> bool;
 pub assume_specification<Idx>[core::ops::Range::<Idx>::is_empty](r: &core::ops::Range<Idx>) -> (b: bool) where Idx: core::cmp::PartialOrd + core::cmp::PartialOrd,
